@@ -28,8 +28,8 @@ CHECKS = {
                 text="Forward and backward <branch, filler, target> programs for all 34 branch forms and rjmp/rcall at every boundary distance and every distance -70..70, with seven filler mixes (one- and two-word instructions, odd .db, .dw, .org gaps) and targets named by label and by pc expression; TLC requires success iff the displacement fits and the exact image otherwise.",
                 note=TB),
     "C05": dict(level="model_checking", ref="3 C05",
-                tech="TLC trace validation of .dq <expr> evaluations against Expr!Eval on exact integers; MC_Expr parse/render theorems",
-                text="18 binary operators on a 31x31 grid of boundary operands, unary operators and byte/word functions on the grid, all depth-2 operator shapes rendered with only the parentheses the table requires, leaves in six radices / as .equ symbols / as labels in three letter cases, and seeded random trees of depth 2-6 are evaluated by the real code; TLC accepts only the table's value (64-bit two's complement) or an error for zero divisors and overflow, and checks that the rendered tokens are the specification's rendering. MC_Expr proves Parse(Render(t)) = t and minimality of the parentheses for all trees up to depth 2 (thorough 3).",
+                tech="TLC trace validation of evaluations (.dq <expr>, .byte <expr>, .org <expr>) against Expr!Eval on exact integers; MC_Expr parse/render theorems",
+                text="18 binary operators on a 31x31 grid of boundary operands, unary operators and byte/word functions on the grid, all depth-2 operator shapes rendered with only the parentheses the table requires, leaves in six radices / as .equ symbols / as labels in three letter cases, and seeded random trees of depth 2-6 are evaluated by the real code; TLC accepts only the table's value (64-bit two's complement) or an error for zero divisors and overflow, and checks that the rendered tokens are the specification's rendering. The same evaluation is observed in two more positions - as the size of a .byte reservation (RAM usage reported) and as an origin (where the next instruction lands) - with failing and small-valued trees. MC_Expr proves Parse(Render(t)) = t and minimality of the parentheses for all trees up to depth 2 (thorough 3).",
                 note=TB + "; outcomes the operator table leaves open are accepted either way (shift counts outside 0..63, >> of negatives, exp2 outside 0..62, -2^63 % -1)"),
     "C06": dict(level="model_checking", ref="3 C06",
                 tech="TLC trace validation of data directives against Assembler!DataFrom on exact (limb) integers",
@@ -66,14 +66,14 @@ CHECKS = {
     "C15": dict(level="model_checking", ref="3 C15",
                 tech="TLC trace validation of single-fault programs (error line must be the spec's fault line, also after shifting by 7 lines) and message placements",
                 text="5 base programs x every insertion position x 16 single-line faults, each built as is and shifted by 7 lines: TLC requires an error whose text contains the specification's fault line as an integer token both times; 768 placements of .message/.warning/.error in and around taken/untaken branches: order, text, own line numbers, unchanged images.",
-                note=TB + "; messages from macro bodies and lines inside included files excluded"),
+                note=TB + "; line numbers inside included files excluded; messages of macro bodies are demanded where the call stands (source order) - the implementation lists them last: known finding macro-messages-listed-last"),
     "C16": dict(level="exploration", ref="3 C16",
                 tech="bounded-exhaustive product of heads x operand dictionary defined by Api.tla, supervised execution, TLC (Trace_Api) checks completeness and accepts only ok/err",
                 text="Every single-line program `head op, op(, op)` over the 158 heads and the 46-entry operand dictionary that Api.tla defines (exported by TLC; ~3.4e5 programs with up to two operands in quick, 1.5e7 with three in thorough) plus token soups and seeded byte/token/line mutations of valid programs up to 64 KiB are built in supervised worker processes (watchdog 10 s, 2 GiB address space); every head with at most one operand is also put into eleven contexts (skipped branch, assembled branch, .elif position, macro body, other segments, small devices), and resource hogs are built under small devices in a 48 MiB address space. TLC checks that every group of the enumeration is complete and that every outcome is ok or err. Time, memory and crashes are observed by the operating system, not modelled - hence exploration, not model checking. Also: size-parameterised resource families (nesting, operator chains, guard-fooling character constants, definition chains in every letter case and through functions, doubling definitions, macro fan-out by calls and by lines, substitution blow-up, literals beyond 64 bits in twelve contexts) and the valid corpus once more in a thread with a 256 KiB stack; file trees that include themselves, devices, pipes and directories. Watchdog 20 s (the slowest job of the unchanged tree takes about 3 s).",
                 note=TB + "; harness profile release + overflow-checks"),
     "C17": dict(level="model_checking", ref="3 C17",
-                tech="TLC replay of recorded build sessions (sequential histories, TLC-generated stage interleavings with real threads, unsynchronised threads, fresh processes) through the actions of Api.tla; MC_Api",
-                text="24 programs sharing macro, symbol, alias and device names (valid, failing in each stage, failing/valid pairs using the same names, more than ten macro arguments, many names of every kind): every sequential history up to length 3 (thorough 4), all 70 TLC-generated schedules of two stage-gated builds x ordered pairs, seeded schedules of three builds, 16 unsynchronised threads x 200 builds (and 16 concurrent builds with 1.1e5 macro calls each), one history in 4 fresh processes, every history of three file trees whose include names are equal but found through different directories. Every session is replayed through Start/Stage/End of Api.tla, where End is only enabled with the result the program has alone in a fresh process. MC_Api model-checks Independent and shows that a variant with a shared device selection violates it.",
+                tech="TLC replay of recorded build sessions (sequential histories, also with the working directory changed between builds, TLC-generated stage interleavings with real threads, unsynchronised threads, fresh processes) through the actions Chdir/Start/Stage/End of Api.tla; MC_Api (holds; shared-device and latched-directory variants violate it)",
+                text="24 programs sharing macro, symbol, alias and device names (valid, failing in each stage, failing/valid pairs using the same names, more than ten macro arguments, many names of every kind): every sequential history up to length 3 (thorough 4), all 70 TLC-generated schedules of two stage-gated builds x ordered pairs, seeded schedules of three builds, 16 unsynchronised threads x 200 builds (and 16 concurrent builds with 1.1e5 macro calls each), one history in 4 fresh processes, every history of three file trees whose include names are equal but found through different directories, every history of three (thorough four) builds of a source string and a relatively named main file in three working directories that hold different files under one relative include path, the process changing directory in between. Every session is replayed through Start/Stage/End of Api.tla, where End is only enabled with the result the program has alone in a fresh process. MC_Api model-checks Independent and shows that a variant with a shared device selection violates it.",
                 note=TB + "; results compared by digest; gating through the public stage functions"),
     "C18": dict(level="model_checking", ref="3 C18",
                 tech="TLC trace validation of recorded runs of the real binary (argv, exit status, files before/after, lexed HEX records) against Cli!Allowed with the IHex reader",
